@@ -520,7 +520,7 @@ STUBS = ['file system = symx.fsenv.ModelFS (regular files and directories, no sy
          'contract; validated against a real directory on every run (198 observations) and every counterexample is replayed on a real temporary directory',
          'modification time = a per-file counter bumped whenever the file is opened for writing (replay: mtime_ns against a fixed old timestamp)',
          'lark Scanner.match / PostLex split regex interpreted by symx.symre in content cells (validated against re at every run)']
-OUTSIDE = ['content cells whose free character extends an account name (end of ) explore > 2300 lexer paths and stay inconclusive within 1500 s (reported as such); symbolic links, permissions, non-UTF-8 files, concurrent writers, failures of write() itself (disk full) and partial writes; include patterns that are absolute paths; '
+OUTSIDE = ['content cells whose free character extends an account name (end of Assets:Old) explore > 2300 lexer paths and stay inconclusive within 1500 s (reported as such); symbolic links, permissions, non-UTF-8 files, concurrent writers, failures of write() itself (disk full) and partial writes; include patterns that are absolute paths; '
            'more than one free character in a file; include graphs other than the 10 listed; more than one entry removed or added per block']
 
 
